@@ -127,7 +127,7 @@ def base_atom(a):
 
 
 def join(*avs: AV) -> AV:
-    avs = [a for a in avs if a is not None and not (a.bottom and not a.prov)]
+    avs = [a for a in avs if a is not None and not (a.bottom and not a.prov and not a.src)]
     if not avs:
         return BOT
     if len(avs) == 1:
@@ -1124,7 +1124,6 @@ class Interp:
             ev.key = join(old.key, k) if old.key.uniq == k.uniq else replace(join(old.key, k), uniq=None)
             ev.val = join(old.val, v)
             ev.facts = ev.facts & old.facts if old.facts is not None else ev.facts
-            ev.reads_same = ev.reads_same and old.reads_same if kind == "assign" else ev.reads_same
         self.events[key] = ev
 
     def augassign(self, s: ast.AugAssign, env: dict, fr: Frame) -> None:
@@ -1849,7 +1848,7 @@ class Interp:
             elif isinstance(n, Pattern):
                 outs.append(const(n.text) if e.attr == "pattern" else const(n.flags) if e.attr == "flags" else self.lib("re.Pattern." + e.attr, ref(n)))
             else:
-                outs.append(self.lib(f"{n.kind}.{e.attr}", ref(n)))
+                outs.append(self.lib(f"{n.kind}.{e.attr}", replace(ref(n), src=base.src)))
         if base.consts or base.top:
             sc = AV(frozenset(c for c in base.consts if c.v is not None), base.top, base.prov)
             if base.maybe_none():
@@ -2273,7 +2272,7 @@ class Interp:
             srcs = recv.src.union(*[a.src for a in args]) if meth in ("union", "copy", "intersection", "difference", "symmetric_difference", "__or__", "__add__") else frozenset()
             return replace(r, src=srcs) if srcs else r
         if kind == "dict" and recv is not None:
-            return self.dict_method([x for x in recv.refs if isinstance(x, Dict)], meth, args, kwargs, fr, e, arg_exprs)
+            return self.dict_method([x for x in recv.refs if isinstance(x, Dict)], meth, args, kwargs, fr, e, arg_exprs, env)
         if kind in ("keys", "values", "items", "pair") and recv is not None:
             s = self.seq(fr, e, "set" if kind != "values" else "list", "viewop")
             self.grow_elem(s, self.iterate(recv, None, fr, None))
@@ -2396,7 +2395,7 @@ class Interp:
                 outs.append(self.unknown_value(f"method {meth} of a {s.kind}", ref(s), *args))
         return join(*outs)
 
-    def dict_method(self, ds: list[Dict], meth: str, args: list[AV], kwargs: dict, fr: Frame, e: ast.AST, arg_exprs: list) -> AV:
+    def dict_method(self, ds: list[Dict], meth: str, args: list[AV], kwargs: dict, fr: Frame, e: ast.AST, arg_exprs: list, env: dict | None = None) -> AV:
         a0 = args[0] if args else BOT
         ktxt = norm(arg_exprs[0]) if arg_exprs else ""
         outs = []
@@ -2429,7 +2428,22 @@ class Interp:
                                     self.grow_dict(d, t.items[0], t.items[1])
                 for k, v in kwargs.items():
                     self.grow_dict(d, const(k), v)
-                self.event("update", dset, BOT, "", a0, fr, e, detail="dict.update")
+                disp = arg_exprs[0] if len(arg_exprs) == 1 and isinstance(arg_exprs[0], ast.Dict) and all(k is not None for k in arg_exprs[0].keys) and env is not None and not kwargs else None
+                if disp is not None:
+                    # d.update({k: v}) is d[k] = v
+                    rec = self.recording
+                    for kx, vx in zip(disp.keys, disp.values):
+                        self.recording = False
+                        try:
+                            kav, vav = self.ev(kx, dict(env), fr), self.ev(vx, dict(env), fr)
+                        except _Dead:
+                            kav = vav = BOT
+                        finally:
+                            self.recording = rec
+                        reads = self.reads_dict(vx, dset, norm(kx), env, fr)
+                        self.event("assign", dset, kav, norm(kx), vav, fr, kx, reads_same=reads, fresh_empty=self.is_fresh_empty(vx))
+                else:
+                    self.event("update", dset, BOT, "", a0, fr, e, detail="dict.update")
                 outs.append(NONE)
             elif meth == "pop":
                 if len(args) < 2:
